@@ -39,6 +39,25 @@ for patch in "$here"/mutants/*.patch; do
     fi
   done < "$exp"
 done
-echo "selftest: $ran mutant checks run, failures=$fail"
+# Behaviour-preserving edits (renames, extracted helpers, changed loop forms ... written by independent
+# sub-agents, /verif/benign/<id>/patch.diff): the check must stay silent on every one of them.
+bran=0
+for bd in "$here"/../benign/*/; do
+  [ -e "$bd/patch.diff" ] || continue
+  rm -rf "$tmp/repo"; mkdir -p "$tmp/repo"
+  rsync -a --exclude .git /repo/ "$tmp/repo/"
+  if ! (cd "$tmp/repo" && patch -p1 -s --no-backup-if-mismatch < "$bd/patch.diff" >/dev/null 2>&1); then
+    echo "selftest skip benign $(basename "$bd"): patch does not apply to the current tree"; continue
+  fi
+  props=$want; [ -z "$props" ] && props=$(/verif/bin/sfcheck list | cut -f1)
+  for prop in $props; do
+    out=$(/verif/bin/sfcheck -property "$prop" -repo "$tmp/repo" -no-evidence 2>&1); rc=$?
+    bran=$((bran+1))
+    if [ $rc -ne 0 ]; then
+      echo "SELFTEST FAIL benign $(basename "$bd") property=$prop: alarm on a behaviour-preserving edit (exit $rc): $(printf '%s' "$out" | grep -m1 'violated\|UNDECIDED' | cut -c1-200)"; fail=1
+    fi
+  done
+done
+echo "selftest: $ran mutant checks run, $bran silent-on-benign checks run, failures=$fail"
 [ $fail -eq 0 ] || { echo "VIOLATION property=${want:-SELFTEST} replay=$here/mutants"; exit 1; }
 exit 0
